@@ -1,3 +1,75 @@
-(* C07 correspondence: the engine evaluator on histories with pre-existing objects in every
-   ownership placement (outcome class, ledger, objects, trace compared step by step). *)
+(* C07 correspondence.
+   (1) The engine evaluator on histories with pre-existing objects in every ownership placement,
+       charts that render ownership metadata of their own, and resources in two namespaces
+       (outcome class, ledger, objects, trace compared step by step: Run/RunEng.v).
+   (2) The transcription of validate.go's stamping code (Engine/Stamp.v) against direct runs of
+       the real setMetadataVisitor / checkOwnership on the label and annotation maps of the
+       case's objects: error or not, and the two maps afterwards.
+   (3) The stamping model against the API server's store: after every successful install /
+       upgrade of the history, each manifest resource is stored with every label and annotation
+       the model computes for it (the forced three and whatever the chart rendered). *)
+From Coq Require Import List String Bool Arith.
+From Helm Require Import Common.Assoc Engine.Types Engine.Eff Engine.Ops Engine.Cluster Engine.Seq Engine.Stamp.
 From Helm Require Export Run.RunEng.
+Import ListNotations.
+
+Record stamp_obs := mkSO {
+  so_rn : string; so_ns : string; so_force : bool;
+  so_labels : strmap; so_annots : strmap;            (* the object's maps before *)
+  so_owned : bool;                                   (* checkOwnership(obj, rn, ns) == nil *)
+  so_res : option (strmap * strmap) }.               (* None: error; Some: the maps afterwards *)
+
+Definition stamp_ok (s : stamp_obs) : bool :=
+  let o := mkMeta (so_labels s) (so_annots s) in
+  Bool.eqb (owned_meta o (so_rn s) (so_ns s)) (so_owned s) &&
+  match set_metadata_visitor (so_rn s) (so_ns s) (so_force s) o, so_res s with
+  | None, None => true
+  | Some o', Some (l, a) =>
+      fields_eqb (m_labels o') l && fields_eqb (m_annots o') a
+      && Nat.eqb (List.length (m_labels o')) (List.length l) && Nat.eqb (List.length (m_annots o')) (List.length a)
+  | _, _ => false
+  end.
+
+(* (3): what the model stamps on a rendered resource is contained in the stored object *)
+Definition stored_has_stamp (objs : list (string * fields)) (r : res) : bool :=
+  match aget (rkey r) objs with
+  | Some f => fields_sub (flat_meta (stamp_meta RunEng.rn RunEng.ns (meta_of (r_fields r)))) f
+  | None => false
+  end.
+
+Definition step_stored_ok (h : hstep) (o : step_obs) : bool :=
+  match h, so_out o with
+  | HOp c, OOk =>
+      match oc_op c with
+      | OpInstall fl _ _ m _ | OpUpgrade fl _ _ m _ =>
+          f_dry_run fl || forallb (stored_has_stamp (so_objs o)) m
+      | _ => true
+      end
+  | _, _ => true
+  end.
+
+Fixpoint steps_stored_ok (hs : list hstep) (os : list step_obs) : bool :=
+  match hs, os with
+  | h :: t, o :: u => step_stored_ok h o && steps_stored_ok t u
+  | _, _ => true
+  end.
+
+Record case := mkC7 { c7_eng : RunEng.case; c7_stamps : list stamp_obs }.
+
+Definition case_ok7 (c : case) : bool :=
+  RunEng.case_ok (c7_eng c)
+  && forallb stamp_ok (c7_stamps c)
+  && steps_stored_ok (c_steps (c7_eng c)) (c_obs (c7_eng c)).
+
+Fixpoint mismatches_from7 (i : nat) (cs : list case) : list nat :=
+  match cs with
+  | [] => []
+  | c :: t => if case_ok7 c then mismatches_from7 (S i) t else i :: mismatches_from7 (S i) t
+  end.
+
+Definition mismatches := mismatches_from7 0.
+
+(* for debugging a mismatch: (engine agreement per step, stamps, store) *)
+Definition diag7 (c : case) :=
+  (RunEng.diag (c7_eng c), map stamp_ok (c7_stamps c),
+   steps_stored_ok (c_steps (c7_eng c)) (c_obs (c7_eng c))).
